@@ -76,3 +76,27 @@ fn u01_4_write_file_key_uses_file_size() {
     assert!(blk_write_file_key_sectored(&b, name, &pos, &data[..n], flags) == want, "sectored key uses position and uncompressed size");
     core::mem::forget(b);
 }
+
+// ------------------------------------------------------------------------------------ U02.4 table serialisation (writer side)
+// the plain-text image of a hash entry before encryption: name hashes at +0/+4, locale u16 at +8, platform u16 at +10,
+// block index at +12, little-endian; of a block entry: position, compressed size, file size, flags (E11 blocks)
+// @harness unit=U02.4 props=C02,C01 kind=bounded bound="tables of 1 entry; every field value" timeout=600 target="builder.rs: write_hash_table / write_block_table serialisation loops (E11 blocks)" oracle=mpq_interop
+#[kani::proof]
+#[kani::unwind(6)]
+#[kani::stub(alloc::fmt::format, stub_format)]
+fn u02_4_table_serialize_layout() {
+    let mut ht = match HashTable::new(1) { Ok(t) => t, Err(e) => { core::mem::forget(e); return; } };
+    let (n1, n2, loc, plat, bi): (u32, u32, u16, u16, u32) = (kani::any(), kani::any(), kani::any(), kani::any(), kani::any());
+    {
+        let e = ht.get_mut(0).unwrap();
+        e.name_1 = n1; e.name_2 = n2; e.locale = loc; e.platform = plat; e.block_index = bi;
+    }
+    let bytes = match blk_hash_table_serialize(&ht) { Ok(b) => b, Err(e) => { core::mem::forget(e); assert!(false, "serialisation succeeds"); return; } };
+    assert!(bytes.len() == 16, "16 bytes per hash entry");
+    assert!(bytes[0..4] == n1.to_le_bytes() && bytes[4..8] == n2.to_le_bytes(), "name hashes first");
+    assert!(bytes[8..10] == loc.to_le_bytes(), "locale at +8");
+    assert!(bytes[10..12] == plat.to_le_bytes(), "platform at +10");
+    assert!(bytes[12..16] == bi.to_le_bytes(), "block index at +12");
+    core::mem::forget(bytes);
+    core::mem::forget(ht);
+}
